@@ -112,6 +112,10 @@ func OracleAll(sc pairsim.Scenario, tr pairsim.Trace) (out []*evid.Failure) {
 					report(evid.Failf("bw/notification-options-lost", sc, "operation %d: notification %d (%d bytes) reached the callback without the Observe option the server sent it with", i, k, n.BodyLen))
 					break
 				}
+				if n.ETagBad != "" {
+					report(evid.Failf("bw/notification-options-lost", sc, "operation %d: notification %d (%d bytes, seq %d) reached the callback with a complete body but not with the ETag of that version: %s", i, k, n.BodyLen, n.Seq, n.ETagBad))
+					break
+				}
 				if n.Code >= 64 && n.Code < 96 && n.Code != 95 && !n.BodyOK {
 					report(evid.Failf("bw/partial-notification", sc, "operation %d: notification %d (seq %d) delivered with a body of %d bytes that is not what the server sent", i, k, n.Seq, n.BodyLen))
 					break
@@ -359,6 +363,10 @@ func genFaulty(t *rapid.T) pairsim.Scenario {
 			op.Down = size("down", ss)
 			op.Notifs = rapid.IntRange(0, 3).Draw(t, "notifs")
 			op.NotifLen = size("nlen", ss)
+			if rapid.IntRange(0, 2).Draw(t, "plainfollowup") == 0 {
+				// a server that puts the ETag on the notification only, not on the blocks fetched afterwards
+				sc.PlainFollowUp = true
+			}
 		}
 		// a second feature in the same exchange: the request carries No-Response (RFC 7967). The body
 		// still has to reach the handler intact and once; a response that is not withheld still has to
@@ -367,6 +375,16 @@ func genFaulty(t *rapid.T) pairsim.Scenario {
 			op.NoResp = rapid.SampledFrom([]int{2, 8, 16, 26, 24}).Draw(t, "noresp")
 		}
 		sc.Ops = append(sc.Ops, op)
+	}
+	if sc.PlainFollowUp {
+		// (the representation must not change while a transfer is in flight: the registration response
+		// fits into one block, and there is one notification, whose representation stays)
+		for i := range sc.Ops {
+			if sc.Ops[i].Kind == "observe" {
+				sc.Ops[i].Notifs = min(sc.Ops[i].Notifs, 1)
+				sc.Ops[i].Down = min(sc.Ops[i].Down, 9)
+			}
+		}
 	}
 	// A caller that re-uses a token accepts that a late copy of an answer to the earlier exchange
 	// matches the later one (RFC 7252 5.3.1 leaves that to the client); with a re-used token the
